@@ -1236,10 +1236,82 @@ fn check_query(ctx: &mut Ctx, index: &Index, text: tantivy::schema::Field, spec:
     if let Some(x) = incons.first() {
         ctx.report.violation("oracle", "C13:return-differs-from-doc", format!("{:?}: {x}", q), case.clone());
     }
-    let top = if scoring && (is_top_should_union(q) || contains_should(q)) { "bunion-sum" } else if is_top_should_union(q) || contains_should(q) { "bunion" } else if is_top_conjunction(q) || contains_conjunction(q) { "inter" } else { "query" };
     let score_of = |d: u32| -> Option<String> { if !scoring { return None; } fdocs.binary_search(&d).ok().map(|i| format!("x:{}", fscores[i])) };
-    // real observations print scores with full precision for the tolerance comparison
-    let v = judge_oracle(top, top == "inter", &fdocs, &prog, &obs.iter().map(|o| o.clone()).collect::<Vec<_>>(), &docs_after, &score_of, true);
+    // First judged without assuming anything about the scorer's type. A score / end-of-count
+    // deviation is attributed to a known finding only if a counterfactual run confirms it: the
+    // same program on a fresh scorer with the fill_buffer calls replaced by the equivalent
+    // advances (resp. count replaced by seek(TERMINATED)) gives the expected score (resp. doc).
+    let v0 = judge_oracle("query", false, &fdocs, &prog, &obs, &docs_after, &score_of, true);
+    let mut top = "query";
+    let mut dense = false;
+    if let Some((key, what)) = v0.oracle.first() {
+        let run_cf = |prog2: &[Call]| -> Option<(Vec<String>, Vec<u32>)> {
+            let mut o = vec![];
+            let mut d = vec![];
+            let mut inc = vec![];
+            catch_unwind(AssertUnwindSafe(|| {
+                if let Ok(mut s) = mk() {
+                    run_real(s.as_mut(), prog2, &mut o, &mut d, &mut inc);
+                }
+            }))
+            .ok()?;
+            Some((o, d))
+        };
+        if key == "C13:score-path-dependent" {
+            let i: usize = what.strip_prefix("call ").and_then(|r| r.split(' ').next()).and_then(|x| x.parse().ok()).unwrap_or(usize::MAX);
+            if i < prog.len() && prog[..i].iter().any(|c| matches!(c, Call::Fill)) {
+                let mut cur = Cursor { all: &fdocs, pos: 0, danger: None, counted: false };
+                let mut prog2 = vec![];
+                for c in &prog[..i] {
+                    if matches!(c, Call::Fill) {
+                        let n = (fdocs.len() - cur.pos).min(COLLECT_BLOCK_BUFFER_LEN);
+                        prog2.extend(std::iter::repeat(Call::Adv).take(n));
+                    } else {
+                        prog2.push(c.clone());
+                    }
+                    cur.step(c);
+                }
+                prog2.push(Call::Score);
+                let at = cur.doc();
+                if let (Some((o2, _)), Some(e)) = (run_cf(&prog2), score_of(at)) {
+                    let (a, b): (f32, f32) = (o2.last().map(|x| x[2..].parse().unwrap_or(f32::NAN)).unwrap_or(f32::NAN), e[2..].parse().unwrap_or(f32::NAN));
+                    if (a - b).abs() <= 1e-5 * b.abs().max(1.0) {
+                        top = "bunion-sum";
+                        ctx.report.count("query:counterfactual-confirms-fill-buffer");
+                    } else {
+                        ctx.report.count("query:counterfactual-refutes-fill-buffer");
+                    }
+                }
+            }
+        } else if key == "C13:count-doc-not-terminated" {
+            if let Some(i) = prog.iter().position(|c| matches!(c, Call::Count)) {
+                let mut prog2: Vec<Call> = prog[..i].to_vec();
+                prog2.push(Call::Seek(TERMINATED));
+                let count_ok = {
+                    let mut cur = Cursor { all: &fdocs, pos: 0, danger: None, counted: false };
+                    for c in &prog[..i] {
+                        cur.step(c);
+                    }
+                    obs.get(i).map(|o| *o == format!("c:{}", fdocs.len() - cur.pos)).unwrap_or(false)
+                };
+                if let Some((_, d2)) = run_cf(&prog2) {
+                    if count_ok && d2.last() == Some(&TERMINATED) {
+                        let stale = docs_after.get(i).cloned().unwrap_or(TERMINATED);
+                        if fdocs.binary_search(&stale).is_ok() {
+                            top = "bunion";
+                        } else {
+                            top = "inter";
+                            dense = true;
+                        }
+                        ctx.report.count("query:counterfactual-confirms-count");
+                    } else {
+                        ctx.report.count("query:counterfactual-refutes-count");
+                    }
+                }
+            }
+        }
+    }
+    let v = if top == "query" { v0 } else { judge_oracle(top, dense, &fdocs, &prog, &obs, &docs_after, &score_of, true) };
     for (key, what) in &v.oracle {
         ctx.report.violation("oracle", key, format!("{:?} (scoring {scoring}): {what}", q), case.clone());
     }
